@@ -634,8 +634,9 @@ def _derives_from_log_term(fs, t, R, term_pos, cand):
     return False
 
 
-def _alias_dep(fs, t, sym, depth=0):
-    """does t depend on sym through local aliases recorded as equality facts?"""
+def _alias_dep(fs, t, sym, depth=0, loops=None):
+    """does t depend on sym through local aliases recorded as equality facts -- or, when `loops` = (term builder,
+    util.loop_sources(func)) is given, through being an element of a collection that does?"""
     if sym in t.deps:
         return True
     if depth > 4:
@@ -646,8 +647,13 @@ def _alias_dep(fs, t, sym, depth=0):
             for l in fs:
                 if l[0] == 'eq':
                     for a, b in ((l[1], l[2]), (l[2], l[1])):
-                        if a.key == name and _alias_dep(fs, b, sym, depth + 1):
+                        if a.key == name and _alias_dep(fs, b, sym, depth + 1, loops):
                             return True
+            if loops is not None:
+                tb, srcs = loops
+                for e in srcs.get(name, ()):
+                    if _alias_dep(fs, tb.term(e), sym, depth + 1, loops):
+                        return True
     return False
 
 
@@ -876,6 +882,7 @@ def r_truncate_on_conflict(ctx):
     sites = [(f, c, via) for f, c, via in log_op_sites(ctx, 'deleteEntriesFrom') if f is h]
     ctx.require(sites, 'no suffix truncation in the handler')
     logsym = 'A:' + R.log
+    lsrc = (ex.tb, U.loop_sources(h))
     for f, c, via in sites:
         inst = 'truncation `%s` only on conflict' % unparse(c)
         for n in U.nodes_containing(ex.cfg, c):
@@ -888,8 +895,8 @@ def r_truncate_on_conflict(ctx):
                     if l[0] != 'ne':
                         continue
                     a, b = l[1], l[2]
-                    da = _alias_dep(fs, a, logsym)
-                    db = _alias_dep(fs, b, logsym)
+                    da = _alias_dep(fs, a, logsym, loops=lsrc)
+                    db = _alias_dep(fs, b, logsym, loops=lsrc)
                     if da != db and a.const is None and b.const is None:
                         conflict = True
                 if not conflict:
